@@ -148,6 +148,7 @@ def run(ctx):
     no_reach_through(ctx, fns)
     no_text_guards(ctx, fns)
     declaration_order(ctx, fns)
+    uniform_elements(ctx, fns)
     doc_line_normal_form(ctx, fns)
 
 
@@ -255,6 +256,45 @@ def declaration_order(ctx, fns):
                            % (f.id.rsplit("::", 1)[-1], a[0], b[0], o1.split("::")[-1], "::" + v1 if v1 != o1.split("::")[-1] else "", b[0]),
                            site="%s in %s" % (first.span, f.id))
     ctx.ob("R13.11", "order", n >= 30, "ordered pairs of printed fields checked: %d" % n)
+
+
+def uniform_elements(ctx, fns):
+    """R13.12: every element of a list is printed with the same parts.  When a printer method reads fields of a list's element
+    type both inside a loop and outside it (first element special-cased), the two places read the same fields — otherwise
+    a rename / type / docs that only the special-cased element gets is lost on the others."""
+    db, prov = ctx.db, ctx.prov
+    # element types of Vec<..> fields of AST nodes
+    elems = set()
+    for k, a in db.adts.items():
+        if k.startswith(AST) and a.get("local"):
+            for v in a["variants"]:
+                for fl in v["fields"]:
+                    m = re.match(r"alloc::vec::Vec<(?:wac_parser::)?(ast::[\w:#]+)", fl["ty"])
+                    if m:
+                        elems.add("wac_parser::" + m.group(1).replace("r#", ""))
+    n = 0
+    for f in fns:
+        if "{closure" in f.id:
+            continue
+        cfg = CFG(f)
+        per = {}
+        for st in list(f.stmts()) + list(f.calls()):
+            places = ([st.rv.place] + [o.place for o in st.rv.ops]) if hasattr(st, "rv") else [a.place for a in st.args]
+            for pl in places:
+                if pl is None:
+                    continue
+                for nm, o, v in pl.fields():
+                    o_ = o.replace("r#", "")
+                    if o_ in elems and nm not in ("span", "docs"):
+                        per.setdefault(o_, {True: set(), False: set()})[cfg.reaches(st.bb, st.bb)].add(nm)
+        for o, d in per.items():
+            if d[True] and d[False]:
+                n += 1
+                ctx.ob("R13.12", "uniform|%s|%s" % (f.id.rsplit("::", 1)[-1], o.split("::")[-1]), d[True] == d[False],
+                       "elements printed inside and outside the loop get the same parts" if d[True] == d[False] else
+                       "`%s` prints %s for the %s handled outside the loop but %s for those in the loop: parts of the other elements are dropped"
+                       % (f.id.rsplit("::", 1)[-1], sorted(d[False]), o.split("::")[-1], sorted(d[True])), site=f.span)
+    ctx.ob("R13.12", "uniform-scan", True, "special-cased list elements found: %d" % n, nontrivial=False)
 
 
 def docs_once(ctx, fns):
